@@ -4,12 +4,12 @@ package world
 
 import (
 	"fmt"
-	"reflect"
 	"sort"
 	"strings"
 	"time"
 
 	corev1 "k8s.io/api/core/v1"
+	apiequality "k8s.io/apimachinery/pkg/api/equality"
 
 	v1 "github.com/DataDog/extendeddaemonset/api/v1alpha1"
 )
@@ -179,7 +179,7 @@ func MonC19(c *MonCtx) {
 			a, b := e0.DeepCopy(), e1.DeepCopy()
 			a.Annotations, b.Annotations = nil, nil
 			a.ResourceVersion, b.ResourceVersion = "", ""
-			if !reflect.DeepEqual(a, b) {
+			if !apiequality.Semantic.DeepEqual(a, b) {
 				c.Violate("C19", "C19/diff: "+cmd+" changed more than annotations on the ExtendedDaemonSet", "")
 			}
 			doc := kubectlDocumented[cmd]
@@ -210,7 +210,7 @@ func MonC19(c *MonCtx) {
 			a, b := r0.DeepCopy(), r1.DeepCopy()
 			a.Status.Conditions, b.Status.Conditions = nil, nil
 			a.ResourceVersion, b.ResourceVersion = "", ""
-			if !reflect.DeepEqual(a, b) {
+			if !apiequality.Semantic.DeepEqual(a, b) {
 				c.Violate("C19", "C19/diff: canary-fail changed more than the conditions of the canary replica set", "")
 			}
 			nFailed := 0
@@ -219,7 +219,7 @@ func MonC19(c *MonCtx) {
 					nFailed++
 					continue
 				}
-				if old := ERSCond(r0, cd.Type); old == nil || !reflect.DeepEqual(*old, cd) {
+				if old := ERSCond(r0, cd.Type); old == nil || !apiequality.Semantic.DeepEqual(*old, cd) {
 					c.Violate("C19", "C19/diff: canary-fail changed a condition other than Canary-Failed", string(cd.Type))
 				}
 			}
